@@ -43,7 +43,7 @@ var (
 func thoroughOf(q bx.Tier, lhuge int) bx.Tier {
 	t := q
 	t.HugePN, t.LHuge = q.PN, lhuge
-	t.PN, t.SK = q.PN+1, q.SK+1
+	t.PN, t.SK, t.LateSKDelta = q.PN+1, q.SK+1, 1
 	t.Budget = 25 * time.Minute
 	return t
 }
@@ -112,8 +112,14 @@ func init() {
 		q4, t4, func(tier string) bx.PerHay {
 			return func(cx *bx.Ctx, h []byte, hi int) bool { return cx.OpsC04(h, tier == "thorough") }
 		})
+	// C11 needs no oracle, so its strategy seeds get the same token words (<= 6 tokens) as C01-C03: a boolean path and a
+	// span path of one strategy can disagree only on inputs long enough for one of them to restart inside a failed
+	// attempt (seeded change S3-C11-A was caught by C01 but not by C11 with words of <= 4 tokens)
+	q11 := q4
+	q11.SeedTokL, q11.SeedTokN = 6, 5
+	t11 := thoroughOf(q11, 2)
 	sweepProp("C11", "Cross-view relations between the APIs of one compiled value (no external oracle), including Engine.FindIndicesAt = Engine.FindAt = Engine.FindSubmatchAt[0] at every offset."+sweepRuleTail, true, false,
-		q4, t4, func(string) bx.PerHay {
+		q11, t11, func(string) bx.PerHay {
 			return func(cx *bx.Ctx, h []byte, hi int) bool { return cx.OpsC11(h) }
 		})
 }
@@ -125,7 +131,7 @@ func c10Plan(tier string) *harness.Plan {
 	// thorough: plus every 4-node pattern on ASCII haystacks of <= 3 symbols and the one-edit seed neighbourhoods on
 	// their token words (a superset of the quick space)
 	t := q
-	t.PN, t.HugePN, t.LHuge, t.SK, t.SeedEmbFirst, t.Budget = 4, 3, 3, 1, nSeeds, 25*time.Minute
+	t.PN, t.HugePN, t.LHuge, t.SK, t.LateSKDelta, t.SeedEmbFirst, t.Budget = 4, 3, 3, 1, 1, nSeeds, 25*time.Minute
 	t.LASCII, t.LRaw = 4, 3
 	sp := bx.NewSpace(sweepTier(tier, q, t))
 	body := func(cx *bx.Ctx, h []byte, hi int) bool {
